@@ -277,6 +277,9 @@ func (vc *FuncVC) call(b *ssa.BasicBlock, idx int, ins ssa.Instruction, c *ssa.C
 	}
 	if con.Extern || con.Trusted {
 		vc.assumed[key] = true
+	} else if vc.relied != nil {
+		// a contract that is itself proved: this function's proof stands on that proof
+		vc.relied[con.Key] = true
 	}
 	argBind := map[string]SVal{}
 	for k, v := range vars {
@@ -317,6 +320,11 @@ func (vc *FuncVC) call(b *ssa.BasicBlock, idx int, ins ssa.Instruction, c *ssa.C
 				}
 				if mc, ok := av.(*ssa.MakeClosure); ok {
 					cbClosure = mc
+					if vc.relied != nil {
+						if cf, ok := mc.Fn.(*ssa.Function); ok {
+							vc.relied[FuncKey(cf)] = true // the closure must keep the callback invariant
+						}
+					}
 					if vc.con != nil && vc.con.Callback != nil {
 						cbSpec = vc.con.Callback[closureOrdinal(mc.Fn.(*ssa.Function))]
 					}
